@@ -1425,7 +1425,28 @@ where
                 } else {
                     Cow::Owned(env::current_dir()?.join(dname))
                 };
-                helpers::normpath(&dname).into_owned()
+                // Like Python's os.path.realpath: resolve the part that
+                // exists, keep the rest as spelled.  (A purely lexical name
+                // would change once the directory has been created, if a
+                // symlinked directory leads to it.)
+                let mut buf = PathBuf::new();
+                for c in dname.components() {
+                    match c {
+                        path::Component::CurDir => {}
+                        path::Component::ParentDir => {
+                            buf.pop();
+                        }
+                        c => {
+                            buf.push(c);
+                            match buf.canonicalize() {
+                                Ok(real) => buf = real,
+                                Err(e) if e.kind() == io::ErrorKind::NotFound => {}
+                                Err(e) => return Err(e),
+                            }
+                        }
+                    }
+                }
+                buf
             }
             Err(e) => return Err(e),
         };
